@@ -220,6 +220,7 @@ pub mod dom {
         pub fn new() -> Self { KVec { items: core::mem::MaybeUninit::uninit(), len: 0 } }
         pub fn with_capacity(_n: usize) -> Self { Self::new() }
         pub fn push(&mut self, t: T) { assert!(self.len < MAXC + 2, "model vector overflow"); unsafe { (self.items.as_mut_ptr() as *mut T).add(self.len).write(t); } self.len += 1; }
+        pub fn remove(&mut self, i: usize) -> T { assert!(i < self.len, "removal index out of bounds"); let t = unsafe { (self.items.as_ptr() as *const T).add(i).read() }; self.drain(i..i + 1); t }
         pub fn append(&mut self, other: &mut KVec<T>) { let mut i = 0; while i < other.len { let t = unsafe { (other.items.as_ptr() as *const T).add(i).read() }; self.push(t); i += 1; } other.len = 0; }
         pub fn drain(&mut self, r: core::ops::Range<usize>) { assert!(r.start <= r.end && r.end <= self.len, "drain range out of bounds"); let k = r.end - r.start; let mut i = r.end;
             while i < self.len { unsafe { let t = (self.items.as_ptr() as *const T).add(i).read(); (self.items.as_mut_ptr() as *mut T).add(i - k).write(t); } i += 1; } self.len -= k; }
